@@ -27,7 +27,7 @@ Control == Of("scs", {"0", "1", "128", "4096", "max31", "max32"}, {"ok"})
 Others == Of("other", {ToString(t) : t \in TypePool}, {"empty", "1", "16"})
 Commands == Of("cmd", {"connect"}, {"ok", "ok3", "nolast", "badmarker", "null", "noapp", "noend", "deep", "deepok"})
        \cup Of("cmd", {"createStream"}, {"ok", "nolast"})
-       \cup Of("cmd", {"publish"}, {"ok", "nolast", "noname", "badmarker", "numforstr", "longstr", "emptyname", "query", "dots", "cutstr"})
+       \cup Of("cmd", {"publish"}, {"ok", "nolast", "noname", "badmarker", "numforstr", "longstr", "emptyname", "query", "dots", "cutstr", "lstrname"})
        \cup Of("cmd", {"play"}, {"ok", "nolast", "noname", "badmarker", "numforstr", "longstr", "emptyname"})
        \cup Of("cmd", {"deleteStream"}, {"ok", "nolast"})
        \cup Of("cmd", {"FCPublish", "releaseStream", "getStreamLength", "FCUnpublish"}, {"ok"})
